@@ -901,15 +901,32 @@ def _schedule(prop, tier, seed):
                  Case("c10std_basic", ["abc", "bc", "c", "ab"], mk="std"), Case("c10lf_empty", ["ab", "", "b"], mk="lf"),
                  Case("c10std_empty", ["", "ab"], mk="std"), Case("c10lf_long", ["abcd", "bcd", "d"], mk="lf"),
                  Case("c10std_nobc", ["abc", "b"], mk="std", bc=False)]
+        # prefilter-accelerated searches honour the span as well (memmem: seeded change C10a; rare bytes)
+        pf_cases = [Case("c10std_mm", ["foo"], mk="std", pf=True), Case("c10lf_r1b", ["abcq", "cdq", "efq", "ghq"], mk="lf", pf=True),
+                    Case("c10std_s2", ["zab", "zcd", "qef"], mk="std", pf=True)]
+        cases += pf_cases
+        # the packed searcher's span handling (Rabin-Karp: forced, and the path every short haystack takes);
+        # a candidate crossing span.end ahead of / at the same start as an in-span match (seeded change C10b)
+        pk_cases = [PackedCase("c10ll_rk_basic", ["ab", "abc", "b"], mk="ll", force="rk"),
+                    PackedCase("c10lf_rk_cross", ["abcd", "bc"], mk="lf", force="rk")]
         if not quick:
             for mkk in ("std", "lf", "ll"):
                 cases += seeded_cases("c10" + mkk, seed, 5, mkk)
+            pk_cases.append(PackedCase("c10lf_t1_slow", ["a", "bc"], mk="lf", force="teddy128"))
+        cases += pk_cases
 
         def mk(facts):
             hs = []
             for c in cases:
-                hs.append(h_span(prop, c, facts, "dfa", n=5 if quick else 7, an=EITHER))
-                if c.mk == "std":
+                if c in pk_cases:
+                    hs.append(h_pk_span(prop, c, facts, n=4 if quick else 5))
+                    continue
+                h = h_span(prop, c, facts, "dfa", n=5 if quick else 7, an=EITHER if c not in pf_cases else UN)
+                if c in pf_cases:
+                    h.stubs = list(STUB_PF)
+                    h.meta["prefilter"] = facts[c.name]["prefilter"][:120]
+                hs.append(h)
+                if c.mk == "std" and c not in pf_cases:
                     hs.append(h_span_ov(prop, c, facts, "dfa", n=4 if quick else 5))
             return hs
         return cases, mk
